@@ -1,11 +1,13 @@
 From Coq Require Import List String Bool Arith ZArith.
-From YT Require Export Base.Str Base.KV Model.Doc Model.Dom Model.Pointer Model.Builder Model.Equals Model.Patch Check.Common.
+From YT Require Export Base.Str Base.KV Model.Doc Model.Dom Model.Pointer Model.Builder Model.Equals Model.Patch Model.Path Model.Diff Model.Xform Check.Common.
 Import ListNotations.
 Local Open Scope list_scope.
 
 (* a sequence of operations on one document; observed: (AsMap(doc), ok?) after every step *)
 Inductive case :=
-| CPatch (d : node) (ops : list pop) (obs : list (node * bool)).
+| CPatch (d : node) (ops : list pop) (obs : list (node * bool))
+(* the operation objects xform.DiffMod2PatchOp made of these modifications *)
+| CFromDiff (mods : list modif) (ops : list pop).
 
 (* the RFC reference run on the same sequence (a failing step leaves the document as it was) *)
 Fixpoint run_rfc (d : node) (ops : list pop) : list (node * bool) :=
@@ -19,8 +21,18 @@ Fixpoint run_rfc (d : node) (ops : list pop) : list (node * bool) :=
 
 Definition step_eqb (a b : node * bool) : bool := node_eqb (fst a) (fst b) && Bool.eqb (snd a) (snd b).
 
+Definition pop_eqb (a b : pop) : bool :=
+  let p := list_eqb String.eqb in
+  let v := opt_eqb node_eqb in
+  match a, b with
+  | PAdd x s, PAdd y t | PReplace x s, PReplace y t | PTest x s, PTest y t => p x y && v s t
+  | PRemove x, PRemove y => p x y
+  | _, _ => false
+  end.
+
 Definition check (c : case) : bool :=
   match c with
+  | CFromDiff mods ops => list_eqb (opt_eqb pop_eqb) (map mod2pop mods) (map Some ops)
   | CPatch d ops obs =>
       list_eqb step_eqb (run_patch d ops) obs &&
       (if forallb in_scope ops then list_eqb step_eqb (run_rfc d ops) obs else true)
